@@ -8,6 +8,16 @@ ASSUMPTIONS = [
 ]
 
 CONF = {
+    "C15": {
+        "rule": "rapid histories (5..35 ops) over all 25 transaction types (success and failure of each is required in every run), ledger changes, faults, multi-message transactions; a recording wrapper around the KVStoreService handed to the keeper logs every Set/Delete key per transaction; oracle: recorded keys and committed key diff of a successful transaction are inside the documented write set for that type and argument, failed transactions leave both stores byte-identical, all 19 queries and genesis export record no write; non-trivial = first success (or failure) of a transaction type within a case; distinct by (case shape, type, outcome)",
+        "quick": {"rapid": [("TestC15", 400, 1)]},
+        "thorough": {"rapid": [("TestC15", 2500, 16)]},
+    },
+    "C19": {
+        "rule": "rapid histories (4..28 ops) of registry transactions over colliding-prone keys (same token under other domains, tokens one byte apart, denoms differing in case, attester spellings of one key) from genesis states with >=3 entries per registry; after every transaction: exported registries vs reference maps, single-item queries for every live entry (token pairs under 6 hex spellings) and for every named-but-absent key, all scalar queries; every 4th step: pagination sweeps of the five list queries for every page size 1..n+1 in key-cursor and offset mode, forward and reverse, total with count_total; non-trivial = case with a removal, a registry of >=3 entries and a sweep; distinct by op/outcome sequence",
+        "quick": {"rapid": [("TestC19", 300, 1)]},
+        "thorough": {"rapid": [("TestC19", 1500, 16)]},
+    },
     "C10": {
         "rule": "(a) bounded-exhaustive: all 4^4 assignments of owner/attester-manager/pauser/token-controller over 4 accounts x pending owner in {absent, each account} x 18 privileged types (valid arguments) x 4 submitters, each run through the real message router on a branch of the committed state that is diffed and discarded; oracle: success <=> submitter holds the matching role, failure => no store changed; (b) rapid histories of role changes and privileged actions over a 7-account universe (previous holders arise naturally); non-trivial = submitter is authorised, or holds another role, or is a previous holder; distinct by (roles, pending, type, submitter) resp. (class, type, submitter)",
         "quick": {"rapid": [("TestC10", 300, 1)], "plain": ["TestC10Enum"]},
@@ -74,6 +84,18 @@ CONF = {
 ALL = ["C%02d" % i for i in range(1, 21)]
 
 MANIFEST_TEXT = {
+    "C15": {
+        "technique": "stateful PBT (rapid) with a write-set recorder wrapped around the keeper's store service: recorded keys and committed diffs vs the documented write set per transaction type; queries/export must record nothing",
+        "level": "Exploration over generated inputs and states; every transaction type must succeed and fail at least once per run. The 'statically for every code path' clause is not decided (DESIGN.md section 6).",
+        "note": "Documented write sets are built with the module's exported key helpers (layout changes must not alarm here).",
+        "ref": "DESIGN.md section 3 C15",
+    },
+    "C19": {
+        "technique": "model-based stateful PBT (rapid): five reference maps maintained from transaction outcomes vs single-item, paginated (all page sizes, both modes, both directions) and scalar queries through the real gRPC query router",
+        "level": "Exploration: generated registry histories with collision-prone keys; full pagination sweeps at checkpoints.",
+        "note": "`0X`-prefixed token hex in the token-pair query is generated nowhere and not judged.",
+        "ref": "DESIGN.md section 3 C19",
+    },
     "C10": {
         "technique": "bounded-exhaustive enumeration (256 role assignments x 5 pending values x 18 types x 4 submitters) through the real message router with full store diff, plus model-based stateful PBT (rapid) over role-change histories",
         "level": "Exploration, exhaustive for the stated finite bound (4 accounts), sampled beyond it.",
